@@ -99,6 +99,8 @@ class C09(Prop):
             'dt': st.sampled_from([False, False, False, True]),
             'resets': st.lists(st.tuples(st.sampled_from(TIMES[2:] + [3.1]), st.sampled_from([None, None] + GRID)).map(list), max_size=2),
             'unreg': st.sampled_from([None, None, 0.4, 0.9, 1.3, 2.4, 3.3]),
+            'ur': st.sampled_from([None, None, None, -1, 0, 0.25]),        # reset(ur) right behind unregister() (-1: reset())
+            'rearm': st.sampled_from([None, None, None, -1, 0, 0.25]),     # one-shot: its event's handler calls reset(rearm)
         })
         return st.fixed_dictionaries({
             'timers': st.lists(timer, min_size=1, max_size=5),
@@ -127,6 +129,7 @@ class C09(Prop):
             plan.append((spec['task']['at'], 4, ('task', spec['task']['steps'])))
         plan.sort(key=lambda x: (x[0], x[1]))
 
+        late_resets = []
         timers = {}     # i -> dict(t=Timer, E=expected expiry, persist, fires=[(now, iteration)], state)
         starts = []     # start time of each loop iteration
         events = []     # log
@@ -173,11 +176,21 @@ class C09(Prop):
                             d['armed_it'] = it
                             d['changed'] = True
                             events.append(('reset', a[1], Clock.now))
+                        elif d and d['state'] in ('unregistered', 'done'):
+                            # reset() on a timer that has been unregistered / a one-shot timer that has fired (the re-arm
+                            # idiom applied too late): it must never fire again, whatever interval it is given
+                            d['t'].reset() if a[2] is None else d['t'].reset(a[2])
+                            late_resets.append(a[1])
                     elif a[0] == 'unreg':
                         d = timers.get(a[1])
                         if d and d['state'] == 'armed':
                             d['t'].unregister()
                             d['state'] = 'unregistered'
+                            if spec['timers'][a[1]].get('ur') is not None:
+                                # reset() right behind unregister(), while the unregistration is still in progress
+                                g = spec['timers'][a[1]]['ur']
+                                d['t'].reset() if g < 0 else d['t'].reset(g)
+                                late_resets.append(a[1])
                             d['unreg_at'] = (Clock.now, it)
                             d['changed'] = True
                     elif a[0] == 'event':
@@ -224,6 +237,12 @@ class C09(Prop):
                     d['armed_it'] = it
                 else:
                     d['state'] = 'done'
+                    if spec['timers'][i].get('rearm') is not None:
+                        # the re-arm idiom applied to a one-shot timer from its own event's handler: the timer is
+                        # already on its way out and must not fire a second time
+                        g = spec['timers'][i]['rearm']
+                        d['t'].reset() if g < 0 else d['t'].reset(g)
+                        late_resets.append(i)
 
             @H('work')
             def _work(self, steps):
@@ -301,6 +320,8 @@ class C09(Prop):
             classes.append('>=2-expiries-pending-in-a-wait')
         if changed_between:
             classes.append('reset/unregister-around-firings')
+        if late_resets:
+            classes.append('reset-after-unregister-or-last-firing')
         if any(t['dt'] for t in spec['timers']):
             classes.append('datetime-deadline')
         if spec['task']:
